@@ -165,8 +165,38 @@ def _binding_sig(prog, f, operand):
     names = param_names(f)
     pr = A.producers(prog, f, operand["p"][0], scope=set(), max_frames=0)
     fields = set(pr["fields"]) | set(e[1:] for e in operand["p"][1:] if isinstance(e, str) and e.startswith(".") and not e[1:].isdigit())
-    return (tuple(sorted(set(names.get(l, "arg%d" % l) for (g, l) in pr["params"] if g is f))), tuple(sorted(fields)),
-            tuple(sorted(set(c.name for c in pr["calls"]))))
+    roots = set(names.get(l, "arg%d" % l) for (g, l) in pr["params"] if g is f)
+    caps = _captures(prog, f)
+    if caps and "arg1" in roots:
+        # a closure body reads its inputs through the environment: name the captured variable the value is copied from
+        via = set(caps[x[1]][0] for x in A.copy_sources(f, operand["p"][0]) if isinstance(x, tuple) and x[0] == 1 and len(x) >= 2 and x[1] in caps)
+        if via:
+            roots = (roots - {"arg1"}) | via
+    return (tuple(sorted(roots)), tuple(sorted(fields)), tuple(sorted(set(c.name for c in pr["calls"]))))
+
+
+def _captures(prog, f):
+    """closure body: captured variable index -> (name, type of the enclosing function's variable of that name)"""
+    out = {}
+    if not f.is_closure() or f.root not in prog.fns:
+        return out
+    r = prog.fns[f.root]
+    rtypes = {}
+    for name, pl in r.debug:
+        if len(pl) == 1:
+            rtypes.setdefault(name, r.locals[pl[0]])
+    for name, pl in f.debug:
+        if len(pl) >= 2 and pl[0] == 1 and isinstance(pl[1], str) and pl[1][1:].isdigit():
+            out[pl[1]] = (name, rtypes.get(name, ""))
+    return out
+
+
+def _param_types(prog, f):
+    """named inputs of f and their types: its parameters, and for a closure body the variables it captures"""
+    out = {pname: f.locals[l] for l, pname in param_names(f).items()}
+    for idx, (name, ty) in _captures(prog, f).items():
+        out.setdefault(name, ty)
+    return out
 
 
 def clause_binding_agreement(prog, rep):
@@ -175,7 +205,7 @@ def clause_binding_agreement(prog, rep):
     field) on the other makes the key underivable from what the receiver is told"""
     n = m = 0
     for f in prog.nontest_fns(("mdk_core",)):
-        if "encrypted_media" not in f.path or f.is_closure() or f.derived:
+        if "encrypted_media" not in f.path or f.derived:
             continue
         uses = {}
         for c in f.live_calls():
@@ -199,7 +229,7 @@ def clause_binding_agreement(prog, rep):
         for name, us in sorted(uses.items()):
             # decrypt side: a value taken from the parsed reference is the reference's field of the same name
             for w, sig, loc in us:
-                if sig[0] and any("MediaReference" in f.locals[l] for l, pname in param_names(f).items() if pname in sig[0]):
+                if sig[0] and any("MediaReference" in ty for pname, ty in _param_types(prog, f).items() if pname in sig[0]):
                     m += 1
                     rep.check(sig[1] == (name,), "aead-siblings", "reference-field/%s/%s/%s" % (f.label(), w, name),
                               "%s receives the reference's `%s` as its `%s`" % (w, name, name),
@@ -302,7 +332,22 @@ def clause_hash_check(prog, rep):
                         r = A.reach_without_edges(f, dc.t["to"], set(), frozenset([w]) | A.err_exit_blocks(f))
                         if any(f.term(b)["k"] == "return" for b in r):
                             ok = False
+        # the same decision written as a value (`(digest == announced).then_some(bytes).ok_or(HashVerificationFailed)`): the comparison
+        # feeds the conversion that carries this very error, and the table below settles the sides
+        value_form = False
+        if not ok:
+            errs = set(s0["d"][0] for b0, s0 in f.aggregates("EncryptedMediaError", "HashVerificationFailed") if len(s0["d"]) == 1)
+            for k in f.live_calls():
+                if k.name not in ("ok_or", "ok_or_else") or len(k.args) != 2 or "p" not in k.args[0] or "p" not in k.args[1]:
+                    continue
+                if not (A.copy_sources(f, k.args[1]["p"][0]) & errs):
+                    continue
+                og = A.origins(prog, f, k.args[0]["p"][0], scope=None, max_frames=0)
+                if og.has_call(lambda c: c.name == "digest") and "original_hash" in og.fields and og.has_call(lambda c: c.name in ("ne", "eq")) \
+                        and og.has_call(lambda c: dec.call(c)) and og.has_call(lambda c: c.name == "then_some"):
+                    value_form = True
         # decision table: whenever the hashes differ, every explored path ends in an error
+        tables_ok = True
         adt_of = {}
         for bb0, s0 in f.stmts():
             if s0.get("k") == "discr":
@@ -318,7 +363,8 @@ def clause_hash_check(prog, rep):
                 return None
 
             def pol(bb0, v, t):
-                pick = {"ControlFlow": 0, "Result": 0}.get(adt_of.get(bb0))
+                # lookups this decision does not concern (no epoch hint, no stored secret) take their present side
+                pick = {"ControlFlow": 0, "Result": 0, "Option": 1}.get(adt_of.get(bb0))
                 if pick is None:
                     return None
                 for val, tb in t["targets"]:
@@ -326,15 +372,21 @@ def clause_hash_check(prog, rep):
                         return tb
                 return t["otherwise"]
             ev = dtable.Evaluator(f, lambda v: None, lambda a, b: None, pol, call_hook=hook)
+            # only the paths on which the ciphertext was actually decrypted are this decision's (an early exit before that is not)
+            ev.log_pred = lambda cal: "dec" if (cal.get("name") == "decrypt" and last_seg(cal.get("trait")) == "Aead") \
+                or dec.fn(cal.get("resolved") or cal.get("path")) else None
             try:
-                results = ev.run_all({l: ("param", "arg%d" % l, l) for l in range(1, f.nargs + 1)})
-                kinds = set(r[2] if r and r[0] == "variant" and r[1] == "Result" else "?" for r in results)
+                ev.run_all({l: ("param", "arg%d" % l, l) for l in range(1, f.nargs + 1)})
+                results = [r for r, lg in ev.path_logs if "dec" in lg]
+                kinds = set(r[2] if r and r[0] == "variant" and r[1] == "Result" else "?" for r in results) or {"no path decrypts"}
             except dtable.Undecided as e:
                 kinds = {"undecided: %s" % e}
             want = {"Err"} if differ else {"Ok"}
+            tables_ok = tables_ok and kinds == want
             rep.check(kinds == want, "hash-after-decrypt", "%s/table/hash-%s" % (f.label(), "differs" if differ else "matches"),
                       "hash %s -> %s on every explored path" % ("differs" if differ else "matches", sorted(kinds)),
                       "with the decrypted bytes' hash %s the announced one the function can end in %s (expected %s)" % ("differing from" if differ else "equal to", sorted(kinds), sorted(want)), f.loc())
+        ok = ok or (value_form and tables_ok)
         rep.check(ok, "hash-after-decrypt", "%s/compare" % f.label(), "SHA-256 of the decrypted bytes is compared with the announced original_hash before they are returned",
                   "decrypted bytes can be returned without comparing their hash with original_hash", f.loc())
         if ok:
